@@ -1,16 +1,20 @@
 #!/bin/bash
 # Re-run every stored seeded change against the quick tier of the check of the property it was
 # written against and of the checks recorded as catching it; prints one line per (seed, check).
+# With `vp run --with-repo` the patches are applied to the repository snapshot ($VP_RUN_REPO) and the
+# checks are built against it, so /repo itself stays untouched.
 cd "$(dirname "$0")/.."
-if ! git -C /repo diff --quiet; then echo "/repo is dirty, refusing"; exit 2; fi
+REPO="${VP_RUN_REPO:-/repo}"
+if [ "$REPO" != "/repo" ]; then export MVV_REPO="$REPO"; ./setup.sh >/dev/null 2>&1; fi
+if ! git -C "$REPO" diff --quiet; then echo "$REPO is dirty, refusing"; exit 2; fi
 for d in seeded/*/; do
   name=$(basename $d)
   ids=$(python3 -c "
 import json;m=json.load(open('$d/meta.json'));print(' '.join(dict.fromkeys([m['breaks_property']]+m['caught_by_quick_checks'])))")
-  git -C /repo apply "$PWD/$d/patch.diff" || { echo "$name: patch does not apply"; continue; }
+  git -C "$REPO" apply "$PWD/$d/patch.diff" || { echo "$name: patch does not apply"; continue; }
   for id in $ids; do
     out=$(./check $id 2>&1 | grep -E "^(VIOLATION|OK|INCONCLUSIVE)" | head -1 | cut -c1-60)
     echo "$name $id ${out%% *}"
   done
-  git -C /repo checkout -- .
+  git -C "$REPO" checkout -- .
 done
